@@ -205,7 +205,9 @@ func Build(level int) []Entry {
 					"empty":        hx.Concat(pre, chunk(0, true, 0)),
 					"zero-chunk":   hx.Concat(pre, chunk(0, false, 0), chunk(3, false, 'x'), chunk(0, true, 0)),
 				}
-				for name, row := range rows {
+				// deterministic order: every shard must see the same corpus sequence
+				for _, name := range []string{"empty", "one-chunk", "three-chunks", "zero-chunk"} {
+					row := rows[name]
 					e := Entry{Name: fmt.Sprintf("blob-t%d-st%d-%s", bt, st, name), Enc: row, Ctx: ctx, Origin: "crafted"}
 					out = append(out, e)
 				}
